@@ -10,6 +10,7 @@ the harness' oracles only (DESIGN.md, C13).
 import EdxmlProps.Lemmas.Numerals
 import EdxmlProps.C03
 import EdxmlProps.Lemmas.Calendar
+import EdxmlProps.Lemmas.DigitStrings
 import Mathlib.Tactic.IntervalCases
 namespace EdxmlProps.C13
 open Edxml Edxml.Gate Edxml.Norm
@@ -372,6 +373,37 @@ theorem normDatetime_aware_sound (y mo d h mi s us : Nat) (o : Int) (str : Strin
       obtain ⟨v1, v2, v3, v4⟩ := validDate_nat _ _ _ hvn
       exact formatUtc_accepted _ _ _ _ _ s us ⟨hy, by omega⟩ ⟨v1, v2⟩ ⟨v3, v4⟩ (by omega) (by omega) hs hus
   · cases hn
+
+/-- C03/C13: the value space of `datetime` is exactly the UTC notations of real dates and times of day
+from the year 1583 on (the normal forms that normalisation produces) -/
+theorem accepts_datetime_iff (cs : List Char) :
+    acceptsDatetime cs = true ↔
+      ∃ y mo d h mi s us : Nat, (1583 ≤ y ∧ y ≤ 9999) ∧ (1 ≤ mo ∧ mo ≤ 12) ∧ (1 ≤ d ∧ d ≤ daysIn y mo) ∧ h ≤ 23 ∧ mi ≤ 59 ∧
+        s ≤ 59 ∧ us ≤ 999999 ∧ cs = (formatUtc y mo d h mi s us).toList := by
+  constructor
+  · intro h
+    unfold acceptsDatetime at h
+    split at h
+    · rename_i y1 y2 y3 y4 m1 m2 d1 d2 h1 h2 n1 n2 s1 s2 f1 f2 f3 f4 f5 f6
+      simp only [List.all_cons, List.all_nil, Bool.and_true, Bool.and_eq_true, decide_eq_true_eq] at h
+      obtain ⟨⟨⟨⟨⟨⟨⟨⟨hds, hy⟩, hm1⟩, hm2⟩, hd1⟩, hd2⟩, hh⟩, hn⟩, hs⟩ := h
+      obtain ⟨a1, a2, a3, a4, a5, a6, a7, a8, a9, a10, a11, a12, a13, a14, a15, a16, a17, a18, a19, a20⟩ := hds
+      have py := pad_natVal [y1, y2, y3, y4] (by simp [a1, a2, a3, a4]) (by simp)
+      have pm := pad_natVal [m1, m2] (by simp [a5, a6]) (by simp)
+      have pd := pad_natVal [d1, d2] (by simp [a7, a8]) (by simp)
+      have ph := pad_natVal [h1, h2] (by simp [a9, a10]) (by simp)
+      have pn := pad_natVal [n1, n2] (by simp [a11, a12]) (by simp)
+      have ps := pad_natVal [s1, s2] (by simp [a13, a14]) (by simp)
+      have pf := pad_natVal [f1, f2, f3, f4, f5, f6] (by simp [a15, a16, a17, a18, a19, a20]) (by simp)
+      have hy4 := natVal_lt_pow [y1, y2, y3, y4] (by simp [a1, a2, a3, a4])
+      have hf6 := natVal_lt_pow [f1, f2, f3, f4, f5, f6] (by simp [a15, a16, a17, a18, a19, a20])
+      simp only [List.length_cons, List.length_nil] at py pm pd ph pn ps pf hy4 hf6
+      refine ⟨natVal [y1, y2, y3, y4], natVal [m1, m2], natVal [d1, d2], natVal [h1, h2], natVal [n1, n2], natVal [s1, s2],
+        natVal [f1, f2, f3, f4, f5, f6], ⟨hy, by omega⟩, ⟨hm1, hm2⟩, ⟨hd1, hd2⟩, hh, hn, hs, by omega, ?_⟩
+      simp only [formatUtc, String.toList_ofList, pad, py, pm, pd, ph, pn, ps, pf, List.cons_append, List.nil_append]
+    · cases h
+  · rintro ⟨y, mo, d, h, mi, s, us, hy, hmo, hd, hh, hmi, hs, hus, rfl⟩
+    exact formatUtc_accepted y mo d h mi s us hy hmo hd hh hmi hs hus
 
 /-- a date and an offset for which the theorem above is not vacuous: 2020-02-29T23:30+02:00 -/
 example : normDatetime (.datetime 2020 2 29 23 30 5 7 (some 120)) = .ok "2020-02-29T21:30:05.000007Z" := by decide +kernel
